@@ -58,6 +58,12 @@ func nestedStructTypes(t reflect.Type, depth int, out *[]reflect.Type) {
 	}
 }
 
+// rule objects that live across calls and are edited in place between them (same map, new contents)
+var (
+	sharedRMMu sync.Mutex
+	sharedRMs  = map[reflect.Type]valid.RM{}
+)
+
 // historyCase: a Struct call on a pooled (or named, or fresh) type with a random configuration
 func historyCase(r *rand.Rand, hot int) Case {
 	buildPool()
@@ -98,6 +104,26 @@ func historyCase(r *rand.Rand, hot int) Case {
 				f := t.Field(i)
 				rm[f.Name] = randRuleList(r, f.Type.Kind(), pv.Elem().Field(i), 3, g.o)
 			}
+		}
+		if sharedOn && chance(r, 0.25) {
+			// the caller's long-lived rule object for this type: the same map as last time, edited in place
+			sharedRMMu.Lock()
+			old, ok := sharedRMs[t]
+			if ok {
+				for k := range old {
+					if chance(r, 0.5) {
+						delete(old, k)
+					}
+				}
+				for k, v := range rm {
+					old[k] = v
+				}
+				rm = old
+			} else {
+				sharedRMs[t] = rm
+			}
+			sharedRMMu.Unlock()
+			tags = append(tags, "rm:shared-object")
 		}
 		if chance(r, 0.5) {
 			call.outer = rm
@@ -170,6 +196,9 @@ func historyCase(r *rand.Rand, hot int) Case {
 }
 
 var slowOn bool
+
+// sharedOn: only in sequential streams (one goroutine owns the long-lived rule objects)
+var sharedOn bool
 
 // guard2: guard for a pair of results obtained together
 func guard2(f func() (string, string)) (a, b string) {
@@ -283,6 +312,25 @@ var (
 	retainOn   bool
 )
 
+// error VALUES handed out (not only their text): Error() must keep answering what it answered first
+type retainedErr struct {
+	err  error
+	copy string
+}
+
+var retainedErrs []retainedErr
+
+func retainError(err error) {
+	if !retainOn || err == nil {
+		return
+	}
+	retainMu.Lock()
+	if len(retainedErrs) < 5000 {
+		retainedErrs = append(retainedErrs, retainedErr{err, X(err.Error())})
+	}
+	retainMu.Unlock()
+}
+
 func retain(what, s string) {
 	if !retainOn {
 		return
@@ -308,6 +356,14 @@ func retainedCases() []Case {
 			}
 		}
 	}
+	for _, x := range retainedErrs {
+		if now := X(x.err.Error()); now != x.copy {
+			bad++
+			if bad <= 5 {
+				out = append(out, Case{Op: "same " + x.copy, Impl: now, Tags: []string{"retained:error-value:changed"}, Nontrivial: true})
+			}
+		}
+	}
 	out = append(out, Case{Op: "same " + X(fmt.Sprintf("retained=%d changed=%d", len(retainedXs), 0)),
 		Impl: X(fmt.Sprintf("retained=%d changed=%d", len(retainedXs), bad)), Tags: []string{"retained:summary"}, Nontrivial: true})
 	return out
@@ -327,6 +383,10 @@ func retainCase(r *rand.Rand) {
 	}
 	if err := valid.Var(fmtString(r, ""), rule); err != nil {
 		retain("error", err.Error())
+		retainError(err)
+	}
+	if err := valid.Struct(&boomProbe{A: fmtString(r, "")}, valid.RM{"A": rule, "B": "required"}); err != nil {
+		retainError(err)
 	}
 }
 
@@ -359,9 +419,11 @@ func dumpAside(r *rand.Rand) {
 // is the caller's own (recovered here, not judged); the calls that FOLLOW are judged as usual and must not see
 // anything of it
 type boomProbe struct {
-	A string
-	B string
-	C int
+	A  string
+	E1 string
+	E2 string
+	B  string
+	C  int
 }
 
 func panicAside(r *rand.Rand) {
@@ -369,7 +431,7 @@ func panicAside(r *rand.Rand) {
 	boom := func(errBuf *strings.Builder, validName, objName, fieldName string, tv reflect.Value) { panic("user function") }
 	if chance(r, 0.5) {
 		vs := valid.NewVStruct()
-		vs.SetRule(valid.RM{"A": "to=1~2", "B": "lboom", "C": "ge=5"})
+		vs.SetRule(valid.RM{"A": "to=1~2", "E1": "either=9", "E2": "either=9", "B": "lboom", "C": "ge=5"}) // a group is pending when B's function panics
 		vs.SetValidFn("lboom", boom)
 		_ = vs.Valid(&boomProbe{A: "abcdef", B: "x", C: 1})
 	} else {
@@ -410,14 +472,14 @@ func init() {
 		register(&Stream{
 			Name: "cache-" + cfg, Rule: "type cache = " + cfg + " (installed with SetStructTypeCache before the first call; one process per configuration); sequential " + histRule,
 			Size: map[string]int{"quick": q, "thorough": t}, Workers: 1,
-			Setup: func(string) { setCache(cfg) },
+			Setup: func(string) { setCache(cfg); sharedOn = true },
 			Gen:   func(r *rand.Rand, tier string) Case { return historyCase(r, 24) },
 		})
 	}
 	register(&Stream{
 		Name: "history", Rule: "sequential " + histRule + "; mixed with Var / Map / Url calls; error strings and ValidNamesSplit tokens handed out along the way are re-read after all later calls",
 		Size: map[string]int{"quick": 20000, "thorough": 400000}, Workers: 1,
-		Setup: func(string) { retainOn = true },
+		Setup: func(string) { retainOn, sharedOn = true, true },
 		Gen: func(r *rand.Rand, tier string) Case {
 			if chance(r, 0.1) {
 				retainCase(r)
